@@ -221,6 +221,15 @@ fn parse(text: &str, allow_substvar: bool) -> Parse {
 
                 if self.current() == Some(IDENT) {
                     self.bump();
+                    // An epoch ("1:2.0-1") is lexed as IDENT COLON IDENT
+                    if self.current() == Some(COLON) {
+                        self.bump();
+                        if self.current() == Some(IDENT) {
+                            self.bump();
+                        } else {
+                            self.error("Expected version after epoch".to_string());
+                        }
+                    }
                 } else {
                     self.error("Expected version".to_string());
                 }
@@ -1307,14 +1316,20 @@ impl Relation {
         let vc = vc.as_ref()?;
         let constraint = vc.children().find(|n| n.kind() == CONSTRAINT);
 
-        let version = vc.children_with_tokens().find_map(|it| match it {
-            SyntaxElement::Token(token) if token.kind() == IDENT => Some(token),
-            _ => None,
-        });
+        // The version is one IDENT, or IDENT COLON IDENT when it has an epoch
+        let version = vc
+            .children_with_tokens()
+            .filter_map(|it| match it {
+                SyntaxElement::Token(token) if token.kind() == IDENT || token.kind() == COLON => {
+                    Some(token.text().to_string())
+                }
+                _ => None,
+            })
+            .collect::<String>();
 
-        if let (Some(constraint), Some(version)) = (constraint, version) {
+        if let (Some(constraint), false) = (constraint, version.is_empty()) {
             let vc: VersionConstraint = constraint.to_string().parse().unwrap();
-            return Some((vc, (version.text().to_string()).parse().unwrap()));
+            return Some((vc, version.parse().unwrap()));
         } else {
             None
         }
